@@ -47,6 +47,8 @@ var c16Files = Files{
 	"p_elsefor.vuego":          `<p v-if="nope">p</p><b v-else v-for="i in three" v-once>OL1</b><p v-for="x in none">x</p><u v-else v-for="i in three" v-once>OL2</u><p v-if="nope">p</p><em v-else-if="t" v-for="i in three" v-once>OL3</em>`,
 	"c_elsefor.vuego":          `<ul><li v-if="nope">h</li><li v-else-if="t" v-for="i in three" v-once>OL4</li></ul>`,
 	"p_elsefor2.vuego":         `<template include="c_elsefor.vuego"></template><template include="c_elsefor.vuego"></template>`,
+	"tr2.vuego":                `<template v-once><b>OR</b></template><i>r</i>`,
+	"p_tmplonce.vuego":         `<template include="tr2.vuego"></template><template include="tr2.vuego"></template><div v-for="i in three"><template include="tr2.vuego"></template></div>`,
 	"p_top.vuego":              `<b v-once>O1</b><p>x</p><b v-once>O2</b><b v-once>O3</b>`,
 	"p_for.vuego":              `<div v-for="i in three"><b v-once>O1</b><i>{{ i }}</i><u v-once>O2</u></div>`,
 	"p_forself.vuego":          `<b v-for="i in three" v-once>O1</b><i v-for="j in three">I</i>`,
@@ -90,6 +92,7 @@ var c16Progs = []c16Prog{
 	{"layslot", "p_layslot.vuego", nil, map[string]int{"LA": 2, "LB": 2}}, // once in the page content, once in the layout slot
 	{"elsefor", "p_elsefor.vuego", map[string]int{"OL1": 1, "OL2": 1, "OL3": 1}, nil},
 	{"elsefor2", "p_elsefor2.vuego", map[string]int{"OL4": 1}, nil},
+	{"tmplonce", "p_tmplonce.vuego", map[string]int{"OR": 1}, nil},
 	{"lay", "p_lay.vuego", map[string]int{"O1": 1, "OA": 1}, map[string]int{"OL": 1, "OL2": 1, "OO": 1, "OA": 2}},
 }
 
@@ -109,7 +112,7 @@ type c16Case struct {
 
 func (c *c16Case) Key() string { return core.KeyOf(c) }
 
-var c16Markers = []string{"OL1", "OL2", "OL3", "OL4", "OE2", "OE", "OF", "OI", "LA", "LB", "OT", "OU", "OW", "ON", "N1W", "N1S", "N2W", "N2S", "O1", "O2", "O3", "OA", "OB2", "OB", "OC", "OAC", "OS", "OL2", "OL", "OO"}
+var c16Markers = []string{"OR", "OL1", "OL2", "OL3", "OL4", "OE2", "OE", "OF", "OI", "LA", "LB", "OT", "OU", "OW", "ON", "N1W", "N1S", "N2W", "N2S", "O1", "O2", "O3", "OA", "OB2", "OB", "OC", "OAC", "OS", "OL2", "OL", "OO"}
 
 func c16Count(out string) map[string]int {
 	m := map[string]int{}
@@ -191,7 +194,7 @@ func init() {
 	core.Register(&core.Check{
 		ID:    "C16",
 		Level: "model_checking",
-		Rule: "25 placements of 1-4 v-once elements (v-once nested inside v-once at top level, in a loop and in two components included from a loop, in a component whose root is a <template> tag (inside and after it), on v-else / v-else-if members and on the v-else of an empty v-for inside a loop, together with v-if, on chain members that are loops themselves, in slot content a page hands to its layout, top level, inside v-for, on the looped element itself, in a component included 1..3 times, in two different components, in a component included from a loop, nested components, slot content used once / twice / in a loop, v-if branches, page + two layouts each including the same component) x 7 entry points (Load+Render, RenderFile, Vue.Render, Vue.RenderFragment, RenderString/Byte/Reader) x every history of <=L renders on one long-lived engine; " +
+		Rule: "26 placements of 1-4 v-once elements (v-once nested inside v-once at top level, in a loop and in two components included from a loop, in a component whose root is a <template> tag (inside, on and after it), on v-else / v-else-if members and on the v-else of an empty v-for inside a loop, together with v-if, on chain members that are loops themselves, in slot content a page hands to its layout, top level, inside v-for, on the looped element itself, in a component included 1..3 times, in two different components, in a component included from a loop, nested components, slot content used once / twice / in a loop, v-if branches, page + two layouts each including the same component) x 7 entry points (Load+Render, RenderFile, Vue.Render, Vue.RenderFragment, RenderString/Byte/Reader) x every history of <=L renders on one long-lived engine; " +
 			"oracle: every marked source element occurs exactly once per render (per link of a layout chain), unreached ones zero times. states = renders checked; non-trivial = all",
 		Bounds:      map[string]string{"quick": "L=2 (all ordered pairs of programs)", "thorough": "L=3 (all ordered triples)"},
 		Assumptions: []string{"markers are counted textually as >MARK< in the output"},
